@@ -1,0 +1,9 @@
+//go:build verif
+
+package certificates
+
+// Contracts for the deductive checker in /verif (comments only; compiled to nothing).
+
+//@ func LoadPublicKey
+//@   trusted
+//@   modifies nothing
